@@ -91,12 +91,9 @@ def parseRootFact (w : String) : Option (Bool × Int × Int) :=
     some (s, nb, na)
   | _ => none
 
-/-- `<asByCa> <nroots> <rootfact>*` -/
-def takeX509Facts : List String → Option (X509Facts × List String)
-  | [] => none
-  | w :: ws => do
-    let a ← parseBool w
-    let (rs, rest) ← takeCounted parseRootFact ws
-    some ({ asByCa := a, roots := rs }, rest)
+/-- `<nroots> <rootfact>*` -/
+def takeX509Facts (ws : List String) : Option (X509Facts × List String) := do
+  let (rs, rest) ← takeCounted parseRootFact ws
+  some ({ roots := rs }, rest)
 
 end Scion.ChainParse
